@@ -44,9 +44,9 @@ func c01Monitors(e *penv, conns []*symConn) {
 func Verif_C01_event_mix_two_connections() {
 	K, d := 2, 1
 	if verifTier() >= 1 {
-		K, d = 3, 2
+		K, d = 3, 1
 	}
-	verifNote("real peer with both connections up (outbound dialled, inbound injected): both in OpenSent, or one of them already in OpenConfirm (symbolic; start-up under the base schedule), then K events (2 quick / 3 thorough), each symbolically {valid OPEN, KEEPALIVE, FIN} (thorough also UPDATE, and the start state with both in OpenSent) on a symbolically chosen connection, delivered back to back (no quiescence in between): all schedules with at most 1 (quick) / 2 (thorough) delays (sleep-set reduced), plugin callbacks contain a scheduling point (so overlapping callbacks would be observed); then quiescence, monitors, peer.stop(), monitors")
+	verifNote("real peer with both connections up (outbound dialled, inbound injected): both in OpenSent, or one of them already in OpenConfirm (symbolic; start-up under the base schedule), then K events (2 quick / 3 thorough), each symbolically {valid OPEN, KEEPALIVE, FIN} (thorough also UPDATE, and the start state with both in OpenSent) on a symbolically chosen connection, delivered back to back (no quiescence in between): all schedules with at most 1 delay (sleep-set reduced), plugin callbacks contain a scheduling point (so overlapping callbacks would be observed); then quiescence, monitors, peer.stop(), monitors")
 	e := newPenv(false)
 	e.pl.yieldInCallbacks = true
 	e.p.start()
